@@ -274,6 +274,24 @@ fn main() {
         cfg.subframe_coding.prc.max_parameter = [14usize, 14, 7, 0, 3][i % 5];
         cfg.subframe_coding.qlpc.window = if i % 3 == 0 { config::Window::Rectangle } else { config::Window::Tukey { alpha: (i % 11) as f32 / 10.0 } };
         cfg.stereo_coding.use_midside = i % 4 != 1;
+        // a build with experimental options may have USED them earlier on this thread (an application that offers
+        // both): every third case is preceded by an encode of the same audio with the experimental estimators
+        // enabled (variants of both options), whose output is discarded; the plain configuration that follows must
+        // still give the bytes every other build gives
+        #[cfg(feature = "experimental")]
+        if i % 3 == 2 {
+            let mut pre = cfg.clone();
+            pre.multithread = false;
+            pre.subframe_coding.use_lpc = true;
+            pre.subframe_coding.qlpc.use_direct_mse = i % 2 == 0 || i % 5 == 0;
+            pre.subframe_coding.qlpc.mae_optimization_steps = [2usize, 0, 5, 1][(i / 3) % 4];
+            if !pre.subframe_coding.qlpc.use_direct_mse && pre.subframe_coding.qlpc.mae_optimization_steps == 0 {
+                pre.subframe_coding.qlpc.use_direct_mse = true;
+            }
+            if let Ok(v) = pre.into_verified() {
+                let _ = flacenc::encode_with_fixed_block_size(&v, MemSource::from_samples(&x, ch, bps, 44100), bs);
+            }
+        }
         let src = MemSource::from_samples(&x, ch, bps, 44100);
         let out = match cfg.into_verified() {
             Ok(v) => match flacenc::encode_with_fixed_block_size(&v, src, bs) {
